@@ -187,6 +187,11 @@ func (s *ManagedServer) AddCredential(username string, uPSK []byte) error {
 		s.mu.Unlock()
 		return fmt.Errorf("user %s already exists", username)
 	}
+	uPSKHash := ss2022.PSKHash(uPSK)
+	if c, ok := s.cachedUserLookupMap[uPSKHash]; ok {
+		s.mu.Unlock()
+		return fmt.Errorf("user %s already has the same uPSK", c.Name)
+	}
 	c, err := ss2022.NewServerUserCipherConfig(username, uPSK, s.udp != nil)
 	if err != nil {
 		s.mu.Unlock()
@@ -194,14 +199,14 @@ func (s *ManagedServer) AddCredential(username string, uPSK []byte) error {
 	}
 	uc := &cachedUserCredential{
 		uPSK:     uPSK,
-		uPSKHash: ss2022.PSKHash(uPSK),
+		uPSKHash: uPSKHash,
 	}
 	s.cachedCredMap[username] = uc
-	s.cachedUserLookupMap[uc.uPSKHash] = c
+	s.cachedUserLookupMap[uPSKHash] = c
 	// Apply the change to the live stores before releasing the lock,
 	// so that concurrent operations reach them in the same order as the cache.
 	s.updateProdULM(func(ulm ss2022.UserLookupMap) {
-		ulm[uc.uPSKHash] = c
+		ulm[uPSKHash] = c
 	})
 	s.mu.Unlock()
 	s.enqueueSave()
@@ -223,6 +228,11 @@ func (s *ManagedServer) UpdateCredential(username string, uPSK []byte) error {
 		s.mu.Unlock()
 		return fmt.Errorf("user %s already has the same uPSK", username)
 	}
+	uPSKHash := ss2022.PSKHash(uPSK)
+	if c, ok := s.cachedUserLookupMap[uPSKHash]; ok {
+		s.mu.Unlock()
+		return fmt.Errorf("user %s already has the same uPSK", c.Name)
+	}
 	c, err := ss2022.NewServerUserCipherConfig(username, uPSK, s.udp != nil)
 	if err != nil {
 		s.mu.Unlock()
@@ -230,12 +240,12 @@ func (s *ManagedServer) UpdateCredential(username string, uPSK []byte) error {
 	}
 	oldUPSKHash := uc.uPSKHash
 	uc.uPSK = uPSK
-	uc.uPSKHash = ss2022.PSKHash(uPSK)
+	uc.uPSKHash = uPSKHash
 	delete(s.cachedUserLookupMap, oldUPSKHash)
-	s.cachedUserLookupMap[uc.uPSKHash] = c
+	s.cachedUserLookupMap[uPSKHash] = c
 	s.updateProdULM(func(ulm ss2022.UserLookupMap) {
 		delete(ulm, oldUPSKHash)
-		ulm[uc.uPSKHash] = c
+		ulm[uPSKHash] = c
 	})
 	s.mu.Unlock()
 	s.enqueueSave()
